@@ -47,6 +47,10 @@ R.contract("Node._connect_to_peer", params={"self": "Node", "peer": "Peer"},
                      "implies(old(is_none(peer.connection)) and old(len(peer.ip_addresses)) > 0 and "
                      "c.ident in self.connections and self.connections[c.ident] == c, "
                      "not is_none(peer.connection) and some(peer.connection) == c)"),
+                    ("an-outbound-connection-that-is-connected-when-the-dial-returns-has-sent-its-cer-first",
+                     "implies(old(is_none(peer.connection)) and old(len(peer.ip_addresses)) > 0 and "
+                     "c.ident in self.connections and self.connections[c.ident] == c and c.state == %d, "
+                     "len(out(c)) == 1 and is_req(items(out(c))[0]) and type_is(items(out(c))[0], CapabilitiesExchangeRequest))" % CONNECTED),
                     ("connected-peer-is-not-dialled-again",
                      "implies(old(not is_none(peer.connection)), unchanged(self.connections) and "
                      "peer.connection == old(peer.connection))")],
@@ -60,7 +64,7 @@ R.contract("Node._connect_to_peer", params={"self": "Node", "peer": "Peer"},
                      "dict:self._half_ready_connections", "*SequenceGenerator._sequence", "*Event.flag",
                      "*list:Peer", "dict:self._peer_waiting_answer", "*Socket.closed", "*StoppableThread.stopped",
                      "*PeerConnection.state"],
-           props=["C19", "C12", "C13"])
+           props=["C19", "C12", "C13", "C06"])
 
 R.assume("ASSUMED invariant (established by Node.add_peer, not verified): self.peers is keyed by Peer.node_name")
 R.contracts["Node._connect_to_peer"].ghost_bind = {"Node.close_connection_socket": {"gs": "peer_socket"}}
@@ -84,3 +88,13 @@ R.contracts["Node._receive_message"].ensures.append(
 R.contracts["Node._reconnect_peers"].requires += [
     Clause("generators", "seq_ok(self.end_to_end_seq)"),
     Clause("identity-encodable", "encodable(self.origin_host) and encodable(self.realm_name)")]
+
+# round 5: release clauses that existed under other properties only (scope) - the resources C19 talks about are released by them
+from . import c15, peer  # noqa  (send/receive slices of the I/O loop, reader loop)
+for _n in ("Node._handle_connections@for:wsock",      # a hard write failure signals the node, which releases the connection
+           "Node._handle_connections@for:rsock",      # read failure / EOF releases the connection
+           "PeerConnection.work_read_queue",          # the reader leaves its loop (no worker spins for ever)
+           "PeerConnection.work_write_queue",
+           "Node._record_answer", "Node.send_message"):   # exactly the answered record leaves the origin table
+    if _n in R.contracts and "C19" not in R.contracts[_n].props:
+        R.contracts[_n].props.append("C19")
